@@ -9,6 +9,10 @@ Nothing here parses Liquid text.  A program is ``{name: items}``; an item is a J
     ["if", var, body]                    {% if var %}body{% endif %}
     ["for", var, n, body]                {% for var in (1..n) %}body{% endfor %}
     ["forin", var, listvar, body]        {% for var in listvar %}body{% endfor %}
+    ["unless", var, None, body]          {% unless var %}body{% endunless %}
+    ["case", var, value, body]           {% case var %}{% when 'value' %}body{% endcase %}
+    ["with", name, var, body]            {% with name: var %}body{% endwith %}
+    ["c", text]                          {# text #}   (renders nothing)
     ["as", name, value]                  {% assign name = 'value' %}
     ["inc", kind, target, kwargs]        {% include|render 'target'[, k: var ...] %}
                                          (target "@var" = {% include var %}, name from scope)
@@ -93,6 +97,18 @@ class Outcome:
 # ---------------------------------------------------------------------------
 
 
+BODY3 = ("for", "forin", "unless", "case", "with")  # containers whose body is it[3]
+
+
+def body_index(it: list) -> int | None:
+    """Index of the nested item list of a container item (None for leaves)."""
+    if it[0] == "b" or it[0] in BODY3:
+        return 3
+    if it[0] == "if":
+        return 2
+    return None
+
+
 def walk(items: list) -> Any:
     """All items, depth first, with the enclosing block name (or None)."""
     stack = [(it, None) for it in reversed(items)]
@@ -104,7 +120,7 @@ def walk(items: list) -> Any:
             stack.extend((c, it[1]) for c in reversed(it[3]))
         elif k == "if":
             stack.extend((c, encl) for c in reversed(it[2]))
-        elif k in ("for", "forin"):
+        elif k in BODY3:
             stack.extend((c, encl) for c in reversed(it[3]))
 
 
@@ -265,6 +281,21 @@ class Ref:
                         self._items(it[3], e, cur, owner, scope, out)
                     finally:
                         scope.pop()
+            elif k == "unless":
+                v = self._lookup(scope, it[1])
+                if v is None or v is False:
+                    self._items(it[3], e, cur, owner, scope, out)
+            elif k == "case":
+                if self._lookup(scope, it[1]) == it[2]:
+                    self._items(it[3], e, cur, owner, scope, out)
+            elif k == "with":
+                scope.append({it[1]: self._lookup(scope, it[2])})
+                try:
+                    self._items(it[3], e, cur, owner, scope, out)
+                finally:
+                    scope.pop()
+            elif k == "c":
+                pass
             elif k == "forin":
                 seq = self._lookup(scope, it[2])
                 for v in seq if isinstance(seq, list) else []:
@@ -371,7 +402,7 @@ def rename(prog: Program, entry: str, data: dict, mapping: dict[str, str]) -> tu
                 it[1] = mapping.get(it[1], it[1])
             elif k == "inc" and not it[2].startswith("@"):
                 it[2] = mapping.get(it[2], it[2])
-            elif k in ("b", "for", "forin"):
+            elif k == "b" or k in BODY3:
                 it[3] = items_(it[3])
             elif k == "if":
                 it[2] = items_(it[2])
@@ -432,6 +463,16 @@ def emit_items(items: list) -> str:
             parts.append(
                 "{%% for %s in %s %%}%s{%% endfor %%}" % (it[1], it[2], emit_items(it[3]))
             )
+        elif k == "unless":
+            parts.append("{%% unless %s %%}%s{%% endunless %%}" % (it[1], emit_items(it[3])))
+        elif k == "case":
+            parts.append(
+                "{%% case %s %%}{%% when '%s' %%}%s{%% endcase %%}" % (it[1], it[2], emit_items(it[3]))
+            )
+        elif k == "with":
+            parts.append("{%% with %s: %s %%}%s{%% endwith %%}" % (it[1], it[2], emit_items(it[3])))
+        elif k == "c":
+            parts.append("{# %s #}" % it[1])
         elif k == "as":
             parts.append("{%% assign %s = '%s' %%}" % (it[1], it[2]))
         elif k == "inc":
